@@ -123,6 +123,43 @@ def maf(dim=3, cond=None, width=3, depth=1):
     return Spec(f"MaskedAutoregressive(dim={dim},cond={cond},width={width},depth={depth})", b, unwrapped=False, tags=("staged",))
 
 
+def bnaf(dim=2, depth=1, block=1, cond=None):
+    """BlockAutoregressiveNetwork, unwrapped: block-lower-triangular weights whose block-diagonal entries are positive (the invariant proved
+    for the wrappers in C09/C11); the numerical inverse is C10's subject (has_inverse=False here)"""
+    import warnings
+    from flowjax import masks
+    with warnings.catch_warnings():
+        warnings.simplefilter("ignore")
+        b = fb.BlockAutoregressiveNetwork(jr.PRNGKey(12), dim=dim, cond_dim=cond, depth=depth, block_dim=block)
+    shapes = [(block, 1)] + [(block, block)] * (depth - 1) + [(1, block)] if depth > 0 else [(1, 1)]
+
+    def masks_of(i):
+        return np.asarray(masks.block_diag_mask(shapes[i], dim)), np.asarray(masks.block_tril_mask(shapes[i], dim))
+
+    def override(s):
+        k = 0
+        for nm, arr in zip(s.P_names, s.P_sym):
+            if nm.endswith("weight") and "layers" in nm:
+                dg, tl = masks_of(k)
+                assert arr.shape == dg.shape, (arr.shape, dg.shape)
+                for idx in np.ndindex(arr.shape):
+                    if not dg[idx] and not tl[idx]:
+                        arr[idx] = Fraction(0)
+                k += 1
+
+    def inv(s, ctx):
+        out = []
+        k = 0
+        for nm, arr in zip(s.P_names, s.P_sym):
+            if nm.endswith("weight") and "layers" in nm:
+                dg, _ = masks_of(k)
+                out += [arr[idx] > 0 for idx in np.ndindex(arr.shape) if dg[idx]]
+                k += 1
+        return out
+    return Spec(f"BlockAutoregressiveNetwork(dim={dim},depth={depth},block_dim={block},cond={cond})", b, inv=inv, sym_override=override, has_inverse=False,
+                note="unwrapped weights: zero above the block diagonal, positive on it (C09/C11); inverse is numerical (C10)")
+
+
 def flow_bij(kind, invert, cond=None, dim=2, layers=2):
     base = StandardNormal((dim,))
     key = jr.PRNGKey(9)
@@ -146,6 +183,7 @@ REG = {
     "invert_affine": invert_affine, "invert_exp": invert_exp, "reshape": reshape, "embed": embed,
     "coupling3": lambda: coupling(3), "coupling2c": lambda: coupling(2, 1), "coupling3d2": lambda: coupling(3, None, 2, 2), "coupling2rqs": lambda: coupling(2, None, 2, 1, True),
     "maf3": lambda: maf(3), "maf2c": lambda: maf(2, 1, 2, 1), "maf3d0": lambda: maf(3, None, 3, 0),
+    "bnaf2": lambda: bnaf(2, 1, 1), "bnaf2b2": lambda: bnaf(2, 1, 2), "bnaf2d0": lambda: bnaf(2, 0, 1), "bnaf2c": lambda: bnaf(2, 1, 1, 1), "bnaf3": lambda: bnaf(3, 1, 1), "bnaf2d2": lambda: bnaf(2, 2, 1),
     "cflow_inv": lambda: flow_bij("coupling", True), "cflow_fwd": lambda: flow_bij("coupling", False), "cflow_inv_c": lambda: flow_bij("coupling", True, 1),
     "mflow_inv": lambda: flow_bij("maf", True), "mflow_fwd": lambda: flow_bij("maf", False),
     "pflow_inv": lambda: flow_bij("planar", True), "pflow_fwd": lambda: flow_bij("planar", False),
